@@ -71,6 +71,15 @@ func ZZ_C15_rt(a []int) {
 	zzAssert(r.i == w, "streaming decode consumption")
 	zzEmitU("v1", uint64(v1))
 	zzEmitU("v2", uint64(v2))
+
+	// a receiver that already holds a value is overwritten, not added to
+	y := zzU32("y")
+	zzAssume(y <= 268435455)
+	buf2 := make([]byte, 4)
+	w2 := vbint(y).fill(buf2, 0)
+	zzAssert(v1.UnmarshalBinary(buf2[:w2]) == nil && uint32(v1) == y, "in-memory decode into a receiver that holds a value")
+	_, err = v2.ReadFrom(&zzContig{b: buf2[:w2]})
+	zzAssert(err == nil && uint32(v2) == y, "streaming decode into a receiver that holds a value")
 }
 
 // ZZ_C15_agree: on every byte sequence of length a[0] (all bytes symbolic)
